@@ -382,6 +382,9 @@ pub mod c12 {
     pub const PURITY: u32 = 16;
     pub const PRE_EVAL: u32 = 32;
     pub const ZIP_FAST: u32 = 64;
+    /// not a cache: while set, the "match a constant exactly" inverse (un.rs `MatchConst`) takes span 0
+    /// instead of `asm.spans.len() - 1` (to tell whether a history-dependent position comes from there)
+    pub const MATCH_CONST_SPAN: u32 = 128;
 
     thread_local! {
         static BYPASS: Cell<u32> = const { Cell::new(0) };
